@@ -210,7 +210,7 @@ func TestVerifBoundedC10Model(t *testing.T) {
 		{kind: "seek", off: 2, whence: io.SeekCurrent}, {kind: "seek", off: -1, whence: io.SeekCurrent},
 		{kind: "seek", off: 0, whence: io.SeekEnd}, {kind: "seek", off: -2, whence: io.SeekEnd}, {kind: "seek", off: 3, whence: io.SeekEnd},
 		{kind: "read", n: 2}, {kind: "read", n: 20},
-		{kind: "truncate", off: 1}, {kind: "truncate", off: 12},
+		{kind: "truncate", off: 0}, {kind: "truncate", off: 1}, {kind: "truncate", off: 12},
 		{kind: "sync"},
 	}
 	evals, failures := 0, 0
